@@ -36,14 +36,21 @@ func runRapid(t *testing.T, p *prop, s *stats, tag string, replayOf string) {
 	var keptAt []int
 	n := 0
 	failed := false
+	var hist *replayHistory // set at the first failure: what it takes to repeat the generated run up to it
 	rapid.Check(t, func(rt *rapid.T) {
+		if failed && replayOf != "" {
+			return // a history replay stops at the first failure (no shrinking)
+		}
 		c := p.gen(rt)
 		s.record(p, c)
 		if fails := runCheck(p, s, c); len(fails) > 0 {
+			if hist == nil {
+				hist = &replayHistory{Seed: flag.Lookup("rapid.seed").Value.String(), Checks: n}
+			}
 			failed = true
 			path := replayOf
 			if replayOf == "" {
-				path = writeReplay(p, s, c, fails, tag)
+				path = writeReplayH(p, s, c, fails, tag, hist)
 			} else {
 				s.mu.Lock()
 				s.Violations = append(s.Violations, violation{Replay: replayOf, Fails: fails})
@@ -80,8 +87,11 @@ func runRapid(t *testing.T, p *prop, s *stats, tag string, replayOf string) {
 				fails[j].Kind = "revisit:" + fails[j].Kind
 			}
 			path := replayOf
+			if hist == nil {
+				hist = &replayHistory{Seed: flag.Lookup("rapid.seed").Value.String(), Checks: n, First: keptAt[i]}
+			}
 			if replayOf == "" {
-				path = writeReplayH(p, s, c2, fails, tag, &replayHistory{Seed: flag.Lookup("rapid.seed").Value.String(), Checks: n, First: keptAt[i]})
+				path = writeReplayH(p, s, c2, fails, tag, hist)
 			} else {
 				s.mu.Lock()
 				s.Violations = append(s.Violations, violation{Replay: replayOf, Fails: fails})
@@ -172,14 +182,6 @@ func TestProp(t *testing.T) {
 		if err := json.Unmarshal(rf.Case, c); err != nil {
 			t.Fatalf("HARNESS-ERROR %v", err)
 		}
-		if rf.History != nil {
-			// history-dependent failure: repeat the generated run (same seed, same number of evaluations)
-			_ = flag.Set("rapid.seed", rf.History.Seed)
-			_ = flag.Set("rapid.checks", strconv.Itoa(rf.History.Checks+1))
-			_ = flag.Set("rapid.nofailfile", "true")
-			runRapid(t, p, s, tag, os.Getenv("VERIF_REPLAY"))
-			return
-		}
 		for i := 0; i < p.replayRuns; i++ {
 			s.record(p, c)
 			if fails := runCheck(p, s, c); len(fails) > 0 {
@@ -188,6 +190,15 @@ func TestProp(t *testing.T) {
 				s.mu.Unlock()
 				t.Fatalf("property %s violated on replay (%s): %s", id, fails[0].Kind, fails[0].Msg)
 			}
+		}
+		if rf.History != nil && rf.History.Seed != "" && rf.History.Seed != "0" {
+			// the case alone passes: the failure depended on what the process did before. Repeat the generated run
+			// (a pure function of the seed) up to the evaluation that failed.
+			fmt.Println("the case alone passes; repeating the generated run that preceded the failure")
+			_ = flag.Set("rapid.seed", rf.History.Seed)
+			_ = flag.Set("rapid.checks", strconv.Itoa(rf.History.Checks+1))
+			_ = flag.Set("rapid.nofailfile", "true")
+			runRapid(t, p, s, tag, os.Getenv("VERIF_REPLAY"))
 		}
 	case "witness":
 		// replay the witnesses of the findings listed for this property:
